@@ -131,7 +131,23 @@ static int call_printer(char fam, int idx, FILE *fp, const uint8_t *d, size_t n)
 	return PRINTERS_C[idx].f(fp, 0, 0, d, n);
 }
 
+static void handle_inner(size_t nw, char **w);
+/* a printer that was handed a FILE* must not write to stdout: fd 1 is diverted while the op runs; the result line goes to [result] */
+static char result[512];
+#define printf(...) snprintf(result + strlen(result), sizeof result - strlen(result), __VA_ARGS__)
 static void handle(size_t nw, char **w) {
+	char path[] = "/tmp/verif_c19o_XXXXXX"; int fd, saved; off_t n;
+	result[0] = 0;
+	fflush(stdout); fd = mkstemp(path); unlink(path); saved = dup(1); dup2(fd, 1);
+	handle_inner(nw, w);
+	fflush(stdout); dup2(saved, 1); close(saved);
+	n = lseek(fd, 0, SEEK_END); close(fd);
+#undef printf
+	if (n > 0 && !strncmp(result, "CLEAN", 5)) { char *sp = strchr(result, ' '); printf("STDOUT%s stdout-bytes=%ld", sp ? sp : "", (long)n); }
+	else printf("%s", result);
+}
+#define printf(...) snprintf(result + strlen(result), sizeof result - strlen(result), __VA_ARGS__)
+static void handle_inner(size_t nw, char **w) {
 	char fam; int idx, cnt = 0, s, m, pass; const char *name; opctx_t *c; uint8_t *buf = malloc(8192); size_t printed = 0; FILE *devnull;
 	TLS_CONNECT *conn;
 	alarm(120);
